@@ -486,7 +486,9 @@ def real_read(codec, data, serial, pos):
     f = io.BytesIO(data)
     f.seek(pos)
     t = tcls(f, types.SimpleNamespace(serial=serial))
-    return "ok padding=%d paddata=%s" % (getattr(t, "_padding", 0), hx(getattr(t, "_pad_data", b"")))
+    kv = ",".join("%s:%s" % (hx(k.encode("ascii")), hx(v.encode("utf-8"))) for k, v in t) or "-"
+    return "ok padding=%d paddata=%s vendor=%s kv=%s" % (getattr(t, "_padding", 0), hx(getattr(t, "_pad_data", b"")),
+                                                       hx(t.vendor.encode("utf-8")), kv)
 
 
 # ---------------------------------------------------------------------------------------------
@@ -661,6 +663,19 @@ def run(ctx, only=None):
                     if kr != "hang":
                         reqs.append(("ogginject fmt=%s op=read data=%s serial=%d pos=%d" % (codec, hx(which), rser, rpos),
                                      rr if kr == "ok" else classify_raw(rr), dict(desc, op="read", serial=rser, pos=rpos)))
+            if k == "ok" and (kind == "plain" or kind.startswith("sample")):
+                # C01: the reload of what was just written — the real comment constructor where the real info constructor
+                # stops — against the model's reader (vendor string, every comment, padding)
+                def reload(out=out):
+                    f2 = io.BytesIO(out)
+                    info = cls._Info(f2)
+                    return info.serial, f2.tell()
+                kr0, sp0 = timed(reload, 20)
+                if kr0 == "ok":
+                    kr, rr = timed(lambda: real_read(codec, out, sp0[0], sp0[1]), 30)
+                    if kr != "hang":
+                        reqs.append(("ogginject fmt=%s op=read data=%s serial=%d pos=%d" % (codec, hx(out), sp0[0], sp0[1]),
+                                     rr if kr == "ok" else classify_raw(rr), dict(desc, op="read", serial=sp0[0], pos=sp0[1], of="reload")))
             if rng.random() < 0.15:
                 which = out if k == "ok" else data
                 sp = strict_parse(which)
@@ -782,6 +797,22 @@ def run(ctx, only=None):
         ctx.traces_validated += 1
         if desc["op"] == "read" and ans.startswith("ok "):
             ans = ans.split(" data=")[0]
+            # the tags are compared when the model's bytes are valid UTF-8 (mutagen decodes with errors='replace':
+            # other bytes do not come back as they were) and all keys are ASCII (else outside the model)
+            mv = dict(x.split("=", 1) for x in ans.split(" ")[1:] if "=" in x)
+            comparable = mv.get("vendor") != "outside"
+            if comparable:
+                try:
+                    for hexs in [mv["vendor"]] + [y for x in (mv["kv"].split(",") if mv["kv"] != "-" else []) for y in x.split(":")]:
+                        (b"" if hexs == "-" else bytes.fromhex(hexs)).decode("utf-8")
+                except Exception:
+                    comparable = False
+            if not comparable:
+                ctx.hist["ogginject:read:tags-not-compared"] += 1
+                ans = ans.split(" vendor=")[0]
+                impl = impl.split(" vendor=")[0]
+            else:
+                ctx.hist["ogginject:read:tags-compared"] += 1
         if desc["op"] == "readall" and ans.startswith("ok wellformed=1"):
             ans = "ok wellformed=1 n=%d" % (len(ans.split("pages=")[1].split(";")) if "pages=-" not in ans else 0)
         if ans != impl:
